@@ -38,12 +38,13 @@ type Config struct {
 
 type generator struct {
 	schema *ast.Schema
-	seen   map[string]struct{}
+	// definitions already declared: name → location of the schema it was declared from
+	seen map[string]string
 }
 
 func GenerateAST(schemaReader io.Reader, c Config) (*ast.Schema, error) {
 	g := &generator{
-		seen:   make(map[string]struct{}),
+		seen:   make(map[string]string),
 		schema: ast.NewSchema(c.Package, c.SchemaMetadata),
 	}
 
@@ -89,11 +90,17 @@ func GenerateAST(schemaReader io.Reader, c Config) (*ast.Schema, error) {
 }
 
 func (g *generator) declareDefinition(definitionName string, schema *schemaparser.Schema) error {
-	if _, found := g.seen[definitionName]; found {
+	if location, found := g.seen[definitionName]; found {
+		// an object is named after the last segment of the reference that leads to it: two different
+		// schemas can get the same name (`#/definitions/Folder/properties/id`, `#/definitions/User/properties/id`)
+		if location != schema.Location {
+			return fmt.Errorf("'%s' names two different schemas: %s and %s", definitionName, location, schema.Location)
+		}
+
 		return nil
 	}
 
-	g.seen[definitionName] = struct{}{}
+	g.seen[definitionName] = schema.Location
 
 	def, err := g.walkDefinition(schema)
 	if err != nil {
@@ -283,14 +290,36 @@ func (g *generator) walkAllOf(schema *schemaparser.Schema) (ast.Type, error) {
 
 func (g *generator) definitionNameFromRef(schema *schemaparser.Schema) string {
 	parts := strings.Split(schema.Ref.Location, "/")
-	name := parts[len(parts)-1] // Very naive
+	name := unescapeLocationSegment(parts[len(parts)-1]) // Very naive
 
-	// the location is a JSON Pointer in a URI fragment: `My%20Type`, `in~1out`
-	if unescaped, err := url.PathUnescape(name); err == nil {
-		name = unescaped
+	// two different schemas can end with the same segment (`#/definitions/Folder/properties/id`,
+	// `#/definitions/User/properties/id`): the second one is also named after what holds it
+	if location, taken := g.seen[name]; taken && location != schema.Ref.Location {
+		for i := len(parts) - 2; i >= 0; i-- {
+			switch parts[i] {
+			case "properties", "definitions", "$defs", "items", "additionalProperties", "#", "":
+				continue
+			}
+
+			if strings.Contains(parts[i], "#") {
+				break
+			}
+
+			return tools.UpperCamelCase(unescapeLocationSegment(parts[i])) + tools.UpperCamelCase(name)
+		}
 	}
 
-	return strings.NewReplacer("~1", "/", "~0", "~").Replace(name)
+	return name
+}
+
+// unescapeLocationSegment decodes one segment of a location, which is a JSON
+// Pointer in a URI fragment: `My%20Type`, `in~1out`.
+func unescapeLocationSegment(segment string) string {
+	if unescaped, err := url.PathUnescape(segment); err == nil {
+		segment = unescaped
+	}
+
+	return strings.NewReplacer("~1", "/", "~0", "~").Replace(segment)
 }
 
 func (g *generator) walkRef(schema *schemaparser.Schema) (ast.Type, error) {
